@@ -5,6 +5,7 @@ import (
 	"time"
 
 	"go.uber.org/atomic"
+	"go.uber.org/zap"
 
 	vf "github.com/ozontech/file.d/zzverif"
 )
@@ -194,6 +195,34 @@ func (a *verifSplitter) Do(e *Event) ActionResult {
 	return ActionBreak
 }
 
+// Hooks for harnesses of plugin packages: with Param("real") == 1 the integrated scenario runs the real
+// multi-line action (wrapped only to observe its verdicts) instead of the model joiner, over the documents
+// the plugin's harness supplies.
+var (
+	VerifRealAction func() (ActionPlugin, AnyConfig)
+	VerifRealDoc    func(i int, stream string) string
+)
+
+// observes what the real action decides (a collapsed or discarded event is not committed)
+type verifWrap struct {
+	w     *verifWorld
+	inner ActionPlugin
+}
+
+func (a *verifWrap) Start(c AnyConfig, p *ActionPluginParams) { a.inner.Start(c, p) }
+func (a *verifWrap) Stop()                                    { a.inner.Stop() }
+func (a *verifWrap) Do(e *Event) ActionResult {
+	if e.IsTimeoutKind() {
+		return a.inner.Do(e)
+	}
+	off := e.Offset
+	res := a.inner.Do(e)
+	if res == ActionCollapse || res == ActionDiscard {
+		a.w.dropped[off] = true
+	}
+	return res
+}
+
 const verifEventTimeout = 300 * time.Millisecond
 
 // C01 / C02 / C04 / C05: the integrated pipeline under the symbolic scheduler.
@@ -212,7 +241,7 @@ func VerifH_C01_pipeline() {
 
 	w := &verifWorld{streamOf: map[int64]string{}, acked: map[int64]bool{}, dropped: map[int64]bool{}, committed: map[int64]int{},
 		commitSeq: map[string][]int64{}, capacity: capacity}
-	p := &Pipeline{settings: &Settings{Capacity: capacity, StreamField: "stream"}, eventLogMu: &sync.Mutex{},
+	p := &Pipeline{settings: &Settings{Capacity: capacity, StreamField: "stream", AvgEventSize: 16}, eventLogMu: &sync.Mutex{},
 		procCount: atomic.NewInt32(int32(nproc)), activeProcs: atomic.NewInt32(0)}
 	p.actionMetrics = actionMetrics{m: map[string]*actionMetric{}, mu: &sync.RWMutex{}}
 	// the pools' rescue heart-beat is scaled from 5 s to 400 ms to keep the idle phase short
@@ -256,6 +285,15 @@ func VerifH_C01_pipeline() {
 			joinInfo.MatchMode = MatchModeAnd
 		}
 		switch {
+		case vf.Param("real", 0) == 1:
+			inner, cfg := VerifRealAction()
+			wrap := &verifWrap{w: w, inner: inner}
+			params := &ActionPluginParams{Controller: proc, PluginDefaultParams: PluginDefaultParams{PipelineName: "t", PipelineSettings: p.settings}}
+			if !vf.Symbolic() {
+				params.Logger = zap.NewNop().Sugar()
+			}
+			wrap.Start(cfg, params)
+			proc.AddActionPlugin(&ActionPluginInfo{ActionPluginStaticInfo: &ActionPluginStaticInfo{PluginStaticInfo: &PluginStaticInfo{Type: "real"}}, PluginRuntimeInfo: &PluginRuntimeInfo{Plugin: wrap}})
 		case vf.Param("split", 0) == 1 && vf.Param("split-join", 0) == 1:
 			// split followed by a multi-line action: the children run through the action that may already hold an event
 			proc.AddActionPlugin(&ActionPluginInfo{ActionPluginStaticInfo: &ActionPluginStaticInfo{PluginStaticInfo: &PluginStaticInfo{Type: "splitter"}}, PluginRuntimeInfo: &PluginRuntimeInfo{Plugin: &verifSplitter{w: w, ctl: proc}}})
@@ -302,6 +340,9 @@ func VerifH_C01_pipeline() {
 			if vf.Param("split", 0) == 1 && vf.Choose("has-items", 2) == 1 {
 				doc = `{"stream":"` + name + `","items":[{"i":1},{"i":2}]}`
 				vf.Reach("split-event")
+			}
+			if vf.Param("real", 0) == 1 {
+				doc = VerifRealDoc(i, name)
 			}
 			_ = e.Root.DecodeString(doc)
 			e.Offset, e.SourceID, e.SourceName = int64(i), 1, "src"
